@@ -165,6 +165,25 @@ def c04(tier, seed, t0):
                                  "counterexamples are replayed through the real command line on real files of the same classes"])
 
 
+@register("C08")
+def c08(tier, seed, t0):
+    from harness import errors_order as H
+    res = R.run_pool(H.HNAME, H.chunks(tier), 150 if tier == "quick" else 1800, seed, tier,
+                     extra=dict(sample_rate=0.05 if tier == "quick" else 0.02), shuffle=False)
+    agg = R.merge(res)
+    bounds = dict(laws="3 diagnostics x 1..2 highlights each (quick: at most one diagnostic with 2); line/column unbounded integers >= 1; 3 names, 2 levels, 3 hint lengths",
+                  order="2..3 (quick, <=4 highlights in total) / 2..4 (thorough) diagnostics x 1..2 highlights, every insertion order (positions symbolic)",
+                  formats="every witness is pushed through both real formatters natively, with and without colours",
+                  precondition="highlights[0] is the smallest highlight of a diagnostic (true of every producer in the code base)",
+                  outside="diagnostics without highlight (excluded by the property: 'a position inside the file'); catalogue/position "
+                          "well-formedness on real runs is monitored by the C01/C09/C11 explorations")
+    return R.report("C08", H.HNAME, tier, seed, agg, t0, bounds,
+                    functions=["norminette.errors.Highlight.__lt__", "Error.__lt__", "Errors.__iter__ (list.sort with the real comparator)",
+                               "Errors.add", "Errors.status", "Error.from_name", "HumanizedErrorsFormatter.__str__ (native, on witnesses)",
+                               "JSONErrorsFormatter.__str__ (native, on witnesses)"],
+                    assumptions=["json.dumps / dataclasses.asdict run natively on the concretised witness of each path class (C-level code)"])
+
+
 def main():
     ap = argparse.ArgumentParser()
     ap.add_argument("prop")
